@@ -13,7 +13,7 @@ from common import (NCPU, HarnessError, Rng, cleanup_run_dir, derive, load_known
                     sim_bin, write_evidence, write_replay)
 from procsim import HEADER_RE, SENTINEL_MTIME, base_env, crc32_hex, run_child, split_driver_output
 
-PREFIXES = ["", "use a;", "use a", "use a;\nuse b;", "// p", "pub struct ImJustHereToConfuse;"]
+PREFIXES = ["", "use a;", "use a", "use a;\nuse b;", "// p", "pub struct ImJustHereToConfuse;", "use a; ", " use a;", "use A;", "use a;\n", "\n"]
 PREFIXES_FORMAT = ["", "use a;", "use a;\nuse b;", "// p", "use  a ;", "pub struct   S ;"]
 
 FUTURE_MTIME = 2208988800  # 2040-01-01
@@ -29,9 +29,20 @@ def valid_pool():
     for name, text in procsim.grammar_pool():
         if name.startswith("corpus:") and name.endswith(":m0"):
             pool.append(text)
+    # families of near-identical texts: a shortcut that looks at less than the whole text would confuse them
     pool.append(b"@export\nA = 'a';\n")
-    pool.append(b"@export\nA = 'a' ;\n")  # differs from the previous one by a space only
+    pool.append(b"@export\nA = 'a' ;\n")       # one space more (generated code is the same, only the header differs)
+    pool.append(b"@export\nA = 'a';")            # no trailing newline
+    pool.append(b"@export\r\nA = 'a';\r\n")     # CRLF line ends
+    pool.append(b"@export\nA = 'a';\n  \n")      # trailing blank line
+    pool.append(b"@export\nA = 'A';\n")          # case of the literal
+    pool.append(b"# c1\n@export\nA = 'a';\n")    # comment only
+    pool.append(b"# c2\n@export\nA = 'a';\n")
     pool.append(b"@export\nA = 'b';\n")
+    big = open(os.path.join(procsim.REPO, "grammar.ebnf"), "rb").read()
+    pool.append(big + b"\n# tail 1\n")          # long texts that differ only after several kilobytes
+    pool.append(big + b"\n# tail 2\n")
+    pool.append(big.replace(b"AtLeastOneMarker = '+';", b"AtLeastOneMarker = '*';"))  # same length, one byte in the middle
     crcs = {crc32_hex(t) for t in pool}
     if len(crcs) != len(pool):
         raise HarnessError("valid grammar pool has CRC collisions")
@@ -56,7 +67,8 @@ def gen_history(seed, i, valid, tier):
     if mode == "file":
         slots = ["g0.ebnf"]
     else:
-        slots = ["src/a.ebnf", "src/sub/b.ebnf", "src/c.ebnf"][: rng.range(1, 3)]
+        # x/g.ebnf and y/g.ebnf share their file stem; .hidden.ebnf is an ordinary grammar for the walk
+        slots = rng.sample(["src/a.ebnf", "src/sub/b.ebnf", "src/c.ebnf", "src/x/g.ebnf", "src/y/g.ebnf", "src/.hidden.ebnf"], rng.range(1, 4))
     cfg["slots"] = slots
     prefixes = PREFIXES_FORMAT if fmt else PREFIXES
     ops = []
@@ -155,7 +167,10 @@ def execute_history(cfg, d, valid, scratch, stats=None):
     prefix = ""
     os.makedirs(os.path.join(d, "outdir"), exist_ok=True)
     if cfg["mode"] == "dir":
-        os.makedirs(os.path.join(d, "src", "sub"), exist_ok=True)
+        for sub in ("sub", "x", "y"):
+            os.makedirs(os.path.join(d, "src", sub), exist_ok=True)
+        with open(os.path.join(d, "src", "UPPER.EBNF"), "w") as f:
+            f.write("@export A = ;;;\n")
         # files the directory walk must ignore
         with open(os.path.join(d, "src", "notes.txt"), "w") as f:
             f.write("not a grammar\n")
@@ -254,6 +269,10 @@ def execute_history(cfg, d, valid, scratch, stats=None):
                 viol.append({"class": cls, "op": opi, "slot": s, "detail": detail, "prefix": prefix,
                              "changed_since_last_ok": changed_since_ok})
 
+            if cfg["mode"] == "dir":
+                for ign in ("notes.rs", "grammar.rs", "UPPER.rs", "UPPER.RS"):
+                    if os.path.exists(os.path.join(d, "src", ign)):
+                        v("ignored-file-compiled", None, "the directory walk produced %s from a file that is not *.ebnf" % ign)
             if c.crashed() or marker not in ("Ok", "Err"):
                 v("crash", None, "Compile child %s: %s" % (c.status_word(), c.err[-300:].decode(errors="replace")))
                 trace.append("run:crash")
